@@ -19,6 +19,7 @@ from supp.assistant import assist, location
 from supp.project import Project
 
 KINDS_X = ('none', 'classvar', 'method', 'property', 'init-assign', 'method-assign', 'lazy-assign')
+KINDS_X2 = KINDS_X + ('for-assign', 'with-assign')     # assignment through a for / with target (small hierarchies only)
 KINDS_Y = ('none', 'classvar', 'method-assign')
 BUILTIN_BASES = ('object', 'dict', 'Exception')
 
@@ -26,8 +27,9 @@ BUILTIN_BASES = ('object', 'dict', 'Exception')
 class Hier(object):
     """classes: list of (bases tuple, kind_x, kind_y); bases are ints (earlier classes) or builtin names"""
 
-    def __init__(self, classes):
+    def __init__(self, classes, ax='x'):
         self.classes = classes
+        self.ax = ax          # name of the first attribute: 'x', or a name the builtin base defines too (keys, args, __eq__)
         self.lines = []
         self.sites = {}      # (class idx, attr) -> ('class'|'inst', (line, col))
         self.render()
@@ -43,12 +45,17 @@ class Hier(object):
         self.emit('        self.f = f')
         self.emit('    def __get__(self, obj, cls):')
         self.emit('        return self.f(obj)')
+        self.emit('class CM(object):')
+        self.emit('    def __enter__(self):')
+        self.emit('        return 0')
+        self.emit('    def __exit__(self, *a):')
+        self.emit('        return False')
         for i, (bases, kx, ky) in enumerate(self.classes):
             bs = ', '.join('C%d' % b if isinstance(b, int) else b for b in bases)
             self.emit('class C%d(%s):' % (i, bs) if bs else 'class C%d:' % i)
             self.emit('    marker%d = %d' % (i, i))
             init = []
-            for attr, k in (('x', kx), ('y', ky)):
+            for attr, k in ((self.ax, kx), ('y', ky)):
                 if k == 'classvar':
                     ln = self.emit('    %s = %d' % (attr, i))
                     self.sites[(i, attr)] = ('class', (ln, 4))
@@ -65,12 +72,20 @@ class Hier(object):
                     init.append(attr)
                 elif k == 'lazy-assign':
                     self.emit('    @Lazy')
-                    self.emit('    def lazy_%s%d(self):' % (attr, i))
+                    self.emit('    def lazy_%s%d(self):' % (attr.strip('_'), i))
                     ln = self.emit('        self.%s = %d' % (attr, i))
                     self.emit('        return 0')
                     self.sites[(i, attr)] = ('inst', (ln, 8))
+                elif k == 'for-assign':
+                    self.emit('    def set_%s%d(self):' % (attr.strip('_'), i))
+                    ln = self.emit('        for q, self.%s in [(0, %d)]: pass' % (attr, i))
+                    self.sites[(i, attr)] = ('inst', (ln, 15))
+                elif k == 'with-assign':
+                    self.emit('    def set_%s%d(self):' % (attr.strip('_'), i))
+                    ln = self.emit('        with CM() as self.%s: pass' % attr)
+                    self.sites[(i, attr)] = ('inst', (ln, 21))
                 elif k == 'method-assign':
-                    self.emit('    def set_%s%d(self):' % (attr, i))
+                    self.emit('    def set_%s%d(self):' % (attr.strip('_'), i))
                     ln = self.emit('        self.%s = %d' % (attr, i))
                     self.sites[(i, attr)] = ('inst', (ln, 8))
             if init:
@@ -83,17 +98,17 @@ class Hier(object):
         # receivers inside the module
         self.emit('class Probe(%s):' % self.top)
         self.emit('    def probe(self):')
-        self.probe_self = self.emit('        self.x; self.y')
+        self.probe_self = self.emit('        self.%s; self.y' % self.ax)
         self.emit('    @classmethod')
         self.emit('    def cprobe(cls):')
-        self.probe_cls = self.emit('        cls.x; cls.y')
+        self.probe_cls = self.emit('        cls.%s; cls.y' % self.ax)
         self.emit('def make():')
         self.emit('    return %s()' % self.top)
-        self.recv_class = self.emit('%s.x; %s.y' % (self.top, self.top))
-        self.recv_inst = self.emit('%s().x; %s().y' % (self.top, self.top))
-        self.recv_func = self.emit('make().x; make().y')
+        self.recv_class = self.emit('%s.%s; %s.y' % (self.top, self.ax, self.top))
+        self.recv_inst = self.emit('%s().%s; %s().y' % (self.top, self.ax, self.top))
+        self.recv_func = self.emit('make().%s; make().y' % self.ax)
         self.emit('inst = %s()' % self.top)
-        self.recv_var = self.emit('inst.x; inst.y')
+        self.recv_var = self.emit('inst.%s; inst.y' % self.ax)
         self.text = '\n'.join(self.lines) + '\n'
 
 
@@ -140,17 +155,17 @@ def ground_truth(h):
                 if type(f).__name__ == 'Lazy':
                     try:
                         getattr(inst, name)
-                    except AttributeError:
-                        return None
+                    except (AttributeError, TypeError):
+                        return None      # e.g. assigning a number to Exception.args
                     continue
-                if callable(f) and not isinstance(f, property) and name not in ('x', 'y') and not name.startswith('__') or name == '__init__' and c in src:
+                if callable(f) and not isinstance(f, property) and name not in (h.ax, 'y') and not name.startswith('__') or name == '__init__' and c in src:
                     try:
                         f(inst)
                         called.append(name)
-                    except AttributeError:
-                        return None      # assigning through a property: not a hierarchy we ask about
+                    except (AttributeError, TypeError):
+                        return None      # assigning through a property / a builtin descriptor: not a hierarchy we ask about
     gt = {'mro': mro, 'class_def': {}, 'inst_sites': {}, 'class_names': set(), 'inst_names': set(inst.__dict__)}
-    for attr in ('x', 'y'):
+    for attr in (h.ax, 'y'):
         for i in mro:
             if attr in vars(ns['C%d' % i]):
                 gt['class_def'][attr] = i
@@ -158,7 +173,7 @@ def ground_truth(h):
         gt['inst_sites'][attr] = [h.sites[(i, attr)][1] for i in mro if (i, attr) in h.sites and h.sites[(i, attr)][0] == 'inst']
     for i in mro:
         gt['class_names'] |= {n for n in vars(ns['C%d' % i]) if not n.startswith('__') or n == '__init__'}
-    gt['has_property'] = {attr: any(h.classes[i][1 if attr == 'x' else 2] == 'property' for i in mro) for attr in ('x', 'y')}
+    gt['has_property'] = {attr: any(h.classes[i][1 if attr == h.ax else 2] == 'property' for i in mro) for attr in (h.ax, 'y')}
     return gt
 
 
@@ -195,7 +210,7 @@ def check_hier(h, root, part, imports=False):
     if imports:
         for form, pre, recv in (('import-module', 'import hmod\n', 'hmod.%s()' % h.top), ('from-import', 'from hmod import %s\n' % h.top, '%s()' % h.top),
                                 ('star-import', 'from hmod import *\n', '%s()' % h.top), ('from-import-func', 'from hmod import make\n', 'make()')):
-            t = pre + '%s.x; %s.y\n' % (recv, recv)
+            t = pre + '%s.%s; %s.y\n' % (recv, h.ax, recv)
             texts.append((os.path.join(root, 'x.py'), t, [('instance-via-' + form, 2, recv)]))
         # the same module three packages deep: import a.b.c / a.b.c.K().x, and a subclass defined in the buffer
         deep = os.path.join(root, 'deep', 'mid')
@@ -206,16 +221,16 @@ def check_hier(h, root, part, imports=False):
             f.write(h.text)
         fn_leaf = os.path.join(deep, 'leaf.py')
         r = 'deep.mid.leaf.%s()' % h.top
-        texts.append((os.path.join(root, 'x.py'), 'import deep.mid.leaf\n%s.x; %s.y\n' % (r, r), [('instance-via-import-dotted3', 2, r)]))
-        texts.append((os.path.join(root, 'x.py'), 'import deep.mid.leaf\nimport deep.mid\nclass Child(deep.mid.leaf.%s):\n    pass\nChild().x; Child().y\n' % h.top,
+        texts.append((os.path.join(root, 'x.py'), 'import deep.mid.leaf\n%s.%s; %s.y\n' % (r, h.ax, r), [('instance-via-import-dotted3', 2, r)]))
+        texts.append((os.path.join(root, 'x.py'), 'import deep.mid.leaf\nimport deep.mid\nclass Child(deep.mid.leaf.%s):\n    pass\nChild().%s; Child().y\n' % (h.top, h.ax),
                       [('instance-via-subclass-of-dotted3', 5, 'Child()')]))
-        texts.append((os.path.join(root, 'x.py'), 'from deep.mid import leaf as lf\nlf.%s().x; lf.%s().y\n' % (h.top, h.top), [('instance-via-from-package-import-module', 2, 'lf.%s()' % h.top)]))
+        texts.append((os.path.join(root, 'x.py'), 'from deep.mid import leaf as lf\nlf.%s().%s; lf.%s().y\n' % (h.top, h.ax, h.top), [('instance-via-from-package-import-module', 2, 'lf.%s()' % h.top)]))
     for tfn, text, recvs in texts:
         line_of = text.split('\n')
         for rname, ln, rexpr in recvs:
             is_inst = rname not in ('class', 'cls')
             line = line_of[ln - 1]
-            for attr in ('x', 'y'):
+            for attr in (h.ax, 'y'):
                 col = line.index(rexpr + '.' + attr) + len(rexpr) + 1
                 part.count('receiver_attr_queries')
                 # ---- proposals
@@ -268,10 +283,10 @@ def check_hier(h, root, part, imports=False):
 
 
 def kind_of(h, gt, name, is_inst):
-    if name in ('x', 'y'):
+    if name in (h.ax, 'y'):
         ks = set()
         for i in gt['mro']:
-            k = h.classes[i][1 if name == 'x' else 2]
+            k = h.classes[i][1 if name == h.ax else 2]
             if k != 'none':
                 ks.add(k)
         return '|'.join(sorted(ks))
@@ -329,21 +344,31 @@ def hierarchies(nclasses, kinds_x, kinds_y, maxb, builtins=BUILTIN_BASES):
 
 def plan(tier):
     if tier == 'quick':
-        return [(1, KINDS_X, KINDS_Y, 1), (2, KINDS_X, KINDS_Y, 2), (3, KINDS_X, ('none',), 2),
+        return [(1, KINDS_X2, KINDS_Y, 1), (2, KINDS_X2, KINDS_Y, 2), (3, KINDS_X, ('none',), 2),
                 # four classes: where a definition sits in a two-level, two-base hierarchy (MRO order)
                 (4, ('none', 'classvar'), ('none',), 2, ('object',))]
-    return [(1, KINDS_X, KINDS_Y, 1), (2, KINDS_X, KINDS_Y, 2), (3, KINDS_X, KINDS_Y, 2), (4, ('none', 'classvar', 'method', 'method-assign'), ('none',), 2),
+    return [(1, KINDS_X2, KINDS_Y, 1), (2, KINDS_X2, KINDS_Y, 2), (3, KINDS_X, KINDS_Y, 2), (4, ('none', 'classvar', 'method', 'method-assign'), ('none',), 2),
             (5, ('none', 'classvar'), ('none',), 2, ())]
 
 
 _ENUM = {}
 
 
+SHADOWING = {'dict': 'keys', 'Exception': 'args', 'object': '__eq__'}
+
+
 def enum(tier):
+    """-> list of (classes, name of the first attribute)"""
     if tier not in _ENUM:
         out = []
         for entry in plan(tier):
-            out += list(hierarchies(*entry))
+            for classes in hierarchies(*entry):
+                out.append((classes, 'x'))
+                # the same hierarchy with the attribute named like one its builtin base has (an override of dict.keys ...)
+                if len(classes) <= (2 if tier == 'quick' else 3):
+                    blt = {b for c in classes for b in c[0] if not isinstance(b, int)}
+                    if len(blt) == 1 and any(c[1] != 'none' for c in classes):
+                        out.append((classes, SHADOWING[blt.pop()]))
         _ENUM[tier] = out
     return _ENUM[tier]
 
@@ -353,12 +378,12 @@ def unit(arg):
     part = Part()
     root = tempfile.mkdtemp(prefix='c06_')
     try:
-        for i, classes in enumerate(enum(tier)[lo:hi]):
-            h = Hier(list(classes))
+        for i, (classes, ax) in enumerate(enum(tier)[lo:hi]):
+            h = Hier(list(classes), ax)
             part.count('evaluations')
             imports = ((lo + i) % 5 == 0) or tier != 'quick'
             for sig, what in check_hier(h, root, part, imports=imports):
-                part.violation(sig, what, {'kind': 'hier', 'classes': [list(map(lambda b: b, c[0])) + [c[1], c[2]] for c in classes], 'imports': imports})
+                part.violation(sig, what, {'kind': 'hier', 'classes': [list(map(lambda b: b, c[0])) + [c[1], c[2]] for c in classes], 'imports': imports, 'ax': ax})
             if (lo + i) % 1500 == 7:
                 part.sample({'hierarchy': h.text.split('class Probe')[0]}, limit=2)
     finally:
@@ -442,7 +467,7 @@ def replay(w):
     classes = [(tuple(c[:-2]), c[-2], c[-1]) for c in w['classes']]
     root = tempfile.mkdtemp(prefix='c06r_')
     try:
-        return check_hier(Hier(classes), root, Part(), imports=w.get('imports', True))
+        return check_hier(Hier(classes, w.get('ax', 'x')), root, Part(), imports=w.get('imports', True))
     finally:
         shutil.rmtree(root, ignore_errors=True)
 
